@@ -70,6 +70,8 @@ inductive Rx where
   | seq (a b : Rx)
   | alt (a b : Rx)
   | rep (greedy : Bool) (min : Nat) (max : Option Nat) (r : Rx)   -- `* + ? {m} {m,} {m,n}` and lazy forms
+  | grp (name : Option Text) (r : Rx)                    -- `(r)` / `(?P<name>r)`: a capturing group of the regex's own;
+                                                         -- transparent for matching (its capture is not a placeholder)
 deriving Repr, DecidableEq
 
 abbrev Res := List (Text × Text)
@@ -118,6 +120,7 @@ def run (u : Ucd) : Rx → Text → Res
   | .esc k neg, s => one (escTest u k neg) s
   | .seq a b, s => (run u a s).flatMap fun x => (run u b x.2).map (pre x.1)
   | .alt a b, s => run u a s ++ run u b s
+  | .grp _ r, s => run u r s
   | .rep g m n r, s =>
     if repValid m n then
       (exactly (run u r) m s).flatMap fun x =>
@@ -130,6 +133,7 @@ def nullable : Rx → Bool
   | .chr _ | .any | .all | .set _ _ | .esc _ _ => false
   | .seq a b => nullable a && nullable b
   | .alt a b => nullable a || nullable b
+  | .grp _ r => nullable r
   | .rep _ m _ r => m == 0 || nullable r
 
 def CItem.ok : CItem → Bool
@@ -145,6 +149,11 @@ def ok : Rx → Bool
   | .set _ items => !items.isEmpty && items.all CItem.ok
   | .seq a b => ok a && ok b
   | .alt a b => ok a && ok b
+  | .grp n r => ok r && (match n with
+      | none => true
+      | some t => (match t with
+        | [] => false
+        | c :: cs => (asciiAlpha c || c = '_') && cs.all fun d => asciiAlnum d || d = '_'))
   | .rep _ m n r => ok r && !nullable r && repValid m n
 
 /-! ### printer (the text `re` is given) -/
@@ -193,9 +202,11 @@ def print : Rx → Text
   | .esc k neg => ['\\', k.letter neg]
   | .seq a b => print a ++ print b
   | .alt a b => group (print a ++ '|' :: print b)
+  | .grp none r => '(' :: print r ++ [')']
+  | .grp (some n) r => "(?P<".toList ++ n ++ '>' :: print r ++ [')']
   | .rep g m n r =>
     (match r with
-      | .chr _ | .any | .all | .set _ _ | .esc _ _ | .alt _ _ => print r
+      | .chr _ | .any | .all | .set _ _ | .esc _ _ | .alt _ _ | .grp _ _ => print r
       | _ => group (print r)) ++ quant g m n
 
 /-- `[^/]+` -/
